@@ -1033,21 +1033,27 @@ func c04ActivationOrigin(r *Run, c *c04Ctx) {
 		ff := r.Prog.factsOf(fn)
 		pos := r.Prog.Pos(ci.Pos())
 		var origin ssa.Value
+		upper := false // the guard bounds the elapsed time from above (the window is open right after its origin)
 		for _, f := range ff.At(ci.Block()) {
 			cf, ok := decodeCmpC(f)
 			if !ok || cf.Op != "<" {
 				continue
 			}
-			for _, side := range []ssa.Value{cf.X, cf.Y} {
+			for i, side := range []ssa.Value{cf.X, cf.Y} {
 				call, isCall := unwrap(side).(*ssa.Call)
 				if !isCall {
 					continue
 				}
+				found := false
 				switch calleeName(&call.Call) {
 				case "time.Since":
-					origin = call.Call.Args[0]
+					origin, found = call.Call.Args[0], true
 				case "(time.Time).Sub":
-					origin = call.Call.Args[1]
+					origin, found = call.Call.Args[1], true
+				}
+				if found {
+					// (elapsed < C) true, or (C < elapsed) false
+					upper = (i == 0 && cf.Pol) || (i == 1 && !cf.Pol)
 				}
 			}
 		}
@@ -1056,6 +1062,8 @@ func c04ActivationOrigin(r *Run, c *c04Ctx) {
 			o.Trivial = true
 			continue
 		}
+		r.Check("C04.R9", "label clean-up window opens at its origin", pos, shortFunc(fn),
+			"the elapsed-time guard of the canary-label clean-up is an upper bound (elapsed < period): the clean-up runs in the syncs that follow the activation, not only after the period has passed", upper, "must-facts: "+descFactsC(ff.At(ci.Block())))
 		okOrigin := r.Prog.dependsOnIP(origin, isActiveRead)
 		r.Check("C04.R9", "label clean-up window origin", pos, shortFunc(fn),
 			"the elapsed time that limits the canary-label clean-up is measured from the Active condition of the replica set (the moment it became active)", okOrigin, "origin "+descValueC(origin))
